@@ -149,6 +149,12 @@ def catalogue(thorough: bool) -> t.List[Stream]:
     # long PDUs (long-form lengths): one >255-byte message
     big = L.SearchResultEntry(1, [], "cn=" + "a" * 130, [L.PartialAttribute("m", [b"x" * 140, b"y"])])
     out.append(Stream("client", ["search"], [big, L.SearchResultDone(1, [], L.LDAPResult(L.LDAPResultCode.SUCCESS, "", "", None))], 0, "long"))
+    # well-known operations a session might treat specially (StartTLS), followed by further messages
+    tls = "1.3.6.1.4.1.1466.20037"
+    ok = L.LDAPResult(L.LDAPResultCode.SUCCESS, "", "", None)
+    out.append(Stream("server", [], [L.ExtendedRequest(1, [], tls, None), _with_id(sr[0], 2), _with_id(er[0], 3)], 0, "starttls-then-more"))
+    out.append(Stream("client", ["ext", "search"], [L.ExtendedResponse(1, [], ok, tls, None), _with_id(ent[0], 2), _with_id(don[0], 2)], 0, "starttls-then-more"))
+    out.append(Stream("client", ["search", "ext"], [_with_id(ent[0], 1), L.ExtendedResponse(2, [], ok, tls, b""), _with_id(don[0], 1)], 1, "starttls-then-more"))
     # many small messages in one stream (a page of search results), and a 1.5 KB message followed by short ones
     page = [L.SearchResultEntry(1, [], "cn=%d" % i, [L.PartialAttribute("a", [b"%d" % i])]) for i in range(24)] + [_with_id(don[0], 1)]
     out.append(Stream("client", ["search"], page, 0, "page-of-25"))
